@@ -220,6 +220,7 @@ def read_kernel(body):
             conv = {'outerwhole': 'outer', 'whole': 'inner'}
             if A[1] not in conv or B[1] not in conv: raise Unrecognised(name + " operands")
             A, B, target = (A[0], conv[A[1]]), (B[0], conv[B[1]]), ('O', 'outer')
+    if loop is not None and loop[1] not in ('L', 'R'): raise Unrecognised("a loop driven by %s" % loop[1])
     # the target must be the output element of the loop
     want = {None: 'whole', 'linear': 'lin', 'cols': 'outer', 'rows': 'outer'}[loop[0] if loop else None]
     if target[1] != want: raise Unrecognised("target %s under loop %s" % (target, loop))
